@@ -2,7 +2,8 @@
 
 A. positional parameters: ALL argument lists of length 0..2 (thorough 0..3) over {x, 'a b', $, 'q', empty; single
    arguments and thorough also a;b a|b >f a& backslash #c} x the
-   reference forms $0 $1 ${2} $3 $9 $@ "$@" p$1s "p${1}s" $1$2 '$1' in a script frame and in a function frame;
+   reference forms $0 $1 ${2} $3 $9 $@ "$@" p$1s "p${1}s" $1$2 '$1' in a script frame and in a function frame, as
+   arguments of a command and inside the condition line of `if` and `while`;
 B. functions: names f, g-h, _k x both header spellings x arities 0..2, defined in the script or in a sourced file;
 C. `source` chains of depth 1..3 that define a variable, an alias, a function and change directory;
 D. status propagation: ALL bodies of up to 3 (thorough 4) lines over {succeeding command, failing command, exit 5,
@@ -161,6 +162,19 @@ def run(rep, tier):
             call = 'fn ' + ' '.join(cq(a) for a in args)
             jobs.append(({'main.sh': 'function fn {\n    vh-argv %s\n}\n%s\n' % (ref, call)}, (), None))
             meta.append(('A', 'function', args, ref))
+    # A': the same references inside the CONDITION line of if / while (expanded by a separate code path), script and function frames
+    cond_lists = [()] + [(a,) for a in ARGS] + list(itertools.product(['x', 'a b'], repeat=2))
+    if tier == 'thorough':
+        cond_lists = arglists
+    for args in cond_lists:
+        for ref in REFS:
+            for kw, tail in (('if', 'fi'), ('while', 'done')):
+                body = '%s vh-argv %s\n    vh-mark in 0\n    %s\n%s\n' % (kw, ref, 'break' if kw == 'while' else 'vh-mark in2 0', tail)
+                jobs.append(({'main.sh': body}, args, None))
+                meta.append(('A', 'script', args, ref))
+                call = 'fn ' + ' '.join(cq(a) for a in args)
+                jobs.append(({'main.sh': 'function fn {\n' + ''.join('    ' + l + '\n' for l in body.splitlines()) + '}\n%s\n' % call}, (), None))
+                meta.append(('A', 'function', args, ref))
     # B
     for name in ('f', 'g-h', '_k'):
         for header in ('function %s {', 'function %s() {'):
@@ -212,7 +226,7 @@ def run(rep, tier):
             frame0 = (o['w'] + '/main.sh') if frame == 'script' else 'fn'
             exp = expand_ref(ref, frame0, list(args))
             got = [r[2] for r in o['recs'] if r[1] == 'vh-argv']
-            cls = '%s:%s:%s' % (frame, ref, arg_class(args))
+            cls = '%s:%s:%s' % (frame + ('-condition' if 'vh-mark in 0' in files.get('main.sh', '') else ''), ref, arg_class(args))
             if len(got) != 1 or list(got[0]) not in exp:
                 dev = 'positional'
                 # the value of a positional parameter is inserted as text and parsed / expanded again: one cause for
